@@ -29,21 +29,31 @@ THEOREMS = [
     "HgVerif.DynLife.swRun_no_violation",
     "HgVerif.DynLife.swRun_clean_at_return",
     "HgVerif.DynLife.swRun_clean_at_release",
+    "HgVerif.DynLife.reduce_run_no_violation",
+    "HgVerif.DynLife.reduce_clean_at_return",
+    "HgVerif.DynLife.reduce_clean_at_release",
+    "HgVerif.DynLife.reduce_stop_error_reaches_caller",
 ]
 CXX_TARGETS = ["hgv_dynlife"]
-RULE = ("dynlife streams: a map_ (or switch_) over child graphs of 1-3 chained probe nodes; key histories with batches "
+RULE = ("dynlife streams: a map_ (or switch_, or a reduce_ with a node / sub-graph combiner) over child graphs of 1-3 chained probe nodes; key histories with batches "
         "(2-4 keys in the first cycle, later batches), one key per cycle, removals, re-adds (new generation), replace-all, value "
         "ticks and idle cycles; 0-3 faults: the k-th probe start call, the n-th evaluation of probe i of key K, the stop of probe i "
         "of key K (pairs such as start fault + stop fault in the rollback, evaluate fault followed by stop fault, stop fault during "
-        "a removal and at the parent's stop); cleanup_on_error on/off; lifecycle observer log + probe hook log + counters at the "
+        "a removal and at the parent's stop; for reduce_: a combiner stop fault as the ONLY fault, evaluate fault followed by stop "
+        "fault, faults in the generation built by a capacity growth, retired combiners); cleanup_on_error on/off; lifecycle observer log + probe hook log + counters at the "
         "return of run() and after the release of the executor + caught exception text; non-trivial = a fault fired or a child was "
         "stopped at run time; distinct by case text")
 TRUSTED = ["key-set slot store as modelled for C05 (Slots.TSD): which slot a key gets and when a removed slot is erased decide "
            "the creation / stop ORDER of sibling children; the replay node applies a dictionary delta as removals then sets in "
            "ascending key order",
-           "UnwindCleanupGuard / FirstExceptionRecorder (util/scope.h) modelled as swallow / first-error-wins folds"]
+           "UnwindCleanupGuard / FirstExceptionRecorder (util/scope.h) modelled as swallow / first-error-wins folds",
+           "shape of the reduce_ combiner tree (which heap positions a key change creates / retires, capacity growth) as "
+           "modelled for C11 (Model/Reduce.lean); that every combiner on a structural or modified leaf path is due rests on "
+           "the probe combiners always writing their output (correspondence-checked)"]
 ASSUMPTIONS = ["faults are std::runtime_error thrown by harness probe hooks; the map has no error output (no per-key capture) and "
-               "its key source does not re-point; switch_ without reload_on_ticked"]
+               "its key source does not re-point; switch_ without reload_on_ticked; reduce_ over a TSD without a zero input, with a "
+               "non-liftable combiner; stop errors of combiners that reduce_ retires DURING a run are swallowed by its noexcept "
+               "retire / rollback paths by design and are not required to reach the caller"]
 
 DL = [os.path.join(BUILD, "hgv_dynlife")]
 VARIANT = os.environ.get("HGV_C14DYN_VARIANT", "fixed")
@@ -164,12 +174,82 @@ def gen_faults(rng, n, used, created, how_many):
     return out
 
 
+def reduce_history(rng):
+    """key histories for reduce_: several keys at once (>= 2 live so that combiners exist), growth across the capacity
+    boundaries 2 / 4 / 8, shrink, value ticks.  -> (cycles, estimated number of combiner instances)"""
+    keys = list(range(1, 10))
+    rng.shuffle(keys)
+    present, cycles = [], []
+    for c in range(rng.randint(1, 6)):
+        absent = [k for k in keys if k not in present]
+        r = rng.random()
+        ops = []
+        if c == 0 or len(present) < 2:
+            add = absent[:rng.choice([2, 2, 3, 3, 4, 5])]
+            ops = ["+%d" % k for k in add]
+            present += add
+        elif r < 0.10:
+            pass
+        elif r < 0.30:
+            ops = ["+%d" % k for k in rng.sample(present, min(len(present), rng.randint(1, 2)))]
+        elif r < 0.58 and absent:
+            add = absent[:rng.choice([1, 1, 2, 3, 4])]                     # growth, often across a capacity boundary
+            ops = ["+%d" % k for k in add]
+            present += add
+        elif r < 0.82:
+            rem = rng.sample(present, min(len(present), rng.choice([1, 1, 2, 3])))   # shrink
+            ops = ["-%d" % k for k in rem]
+            present = [k for k in present if k not in rem]
+        elif absent:
+            rem = rng.sample(present, min(len(present), rng.randint(1, 2)))
+            add = absent[:rng.randint(1, 2)]
+            ops = ["-%d" % k for k in rem] + ["+%d" % k for k in add]
+            if present and rng.random() < 0.5:
+                keep = [k for k in present if k not in rem]
+                if keep:
+                    ops.append("+%d" % rng.choice(keep))
+            present = [k for k in present if k not in rem] + add
+        rng.shuffle(ops)
+        cycles.append(ops)
+    total_adds = sum(1 for c in cycles for o in c if o[0] == "+")
+    return cycles, max(2, min(12, total_adds + 2))
+
+
+def gen_reduce_faults(rng, n, ncomb, how_many, shape):
+    """shape: 'stop-only' (a stop fault is the only fault), 'eval-stop', 'any'"""
+    faults = []
+    if shape == "stop-only":
+        faults = ["fx %d %d" % (rng.randint(1, ncomb), rng.randrange(n)) for _ in range(max(1, how_many))]
+    elif shape == "eval-stop":
+        faults = ["fe %d %d %d" % (rng.randint(1, ncomb), rng.randrange(n), rng.choice([1, 1, 2, 3])),
+                  "fx %d %d" % (rng.randint(1, ncomb), rng.randrange(n))]
+    else:
+        for _ in range(how_many):
+            r = rng.random()
+            if r < 0.25:
+                faults.append("fs %d" % rng.randint(1, ncomb * n + 1))
+            elif r < 0.60:
+                faults.append("fe %d %d %d" % (rng.randint(1, ncomb), rng.randrange(n), rng.choice([1, 1, 2, 2, 3])))
+            else:
+                faults.append("fx %d %d" % (rng.randint(1, ncomb), rng.randrange(n)))
+    out = []
+    for f in faults:
+        if f not in out:
+            out.append(f)
+    return out
+
+
 def gen_case(rng, i):
-    kind = "map" if rng.random() < 0.78 else "switch"
+    r = rng.random()
+    kind = "map" if r < 0.55 else ("switch" if r < 0.72 else "reduce")
     n = rng.choice([1, 1, 2, 2, 3])
     cleanup = rng.random() < 0.75
-    cycles, used, created = map_history(rng) if kind == "map" else switch_history(rng)
     nf = rng.choice([0, 1, 1, 1, 2, 2, 3])
+    if kind == "reduce":
+        cycles, ncomb = reduce_history(rng)
+        shape = rng.choice(["stop-only", "stop-only", "eval-stop", "any", "any", "any"])
+        return mk(i, kind, n, cleanup, gen_reduce_faults(rng, n, ncomb, nf, shape) if (nf or shape != "any") else [], cycles)
+    cycles, used, created = map_history(rng) if kind == "map" else switch_history(rng)
     return mk(i, kind, n, cleanup, gen_faults(rng, n, used, created, nf), cycles)
 
 
@@ -214,6 +294,27 @@ def directed(base):
             add("switch", n, cl, ["fe 2 0 2", "fx 2 0"], [["=1"], ["=2"], ["~"]])
             add("switch", n, cl, ["fs %d" % (n + 1), "fx 2 0"], [["=1"], ["=2"]])
             add("switch", n, cl, [], [["=1"], ["~"], ["=2"], ["=2"], [], ["=1"]])
+            # reduce_: a stop fault as the ONLY fault (root combiner / deeper combiner / every one), normal end of run
+            for o in (1, 2):
+                add("reduce", n, cl, ["fx %d %d" % (o, n - 1)], [["+1", "+2", "+3"], ["+2"]])
+            add("reduce", n, cl, ["fx 1 0"], [["+1", "+2"]])
+            add("reduce", n, cl, ["fx 1 0", "fx 2 0"], [["+1", "+2", "+3", "+4"]])
+            # ... in a combiner of the generation built by a capacity growth (2 -> 4 -> 8), and after a shrink
+            add("reduce", n, cl, ["fx 3 0"], [["+1", "+2"], ["+3", "+4"], ["+1"]])
+            add("reduce", n, cl, ["fx 5 %d" % (n - 1)], [["+1", "+2", "+3"], ["+4", "+5"], ["+6"]])
+            add("reduce", n, cl, ["fx 4 0"], [["+1", "+2", "+3", "+4"], ["-4", "-3"], ["+5", "+6", "+7"]])
+            add("reduce", n, cl, ["fx 2 0"], [["+1", "+2", "+3", "+4"], ["-1"], ["-2"]])
+            # a retired combiner whose stop throws (swallowed by the retire path), then a clean end
+            add("reduce", n, cl, ["fx 1 0"], [["+1", "+2", "+3"], ["+4", "+5"], ["+1"]])
+            add("reduce", n, cl, ["fx 2 0"], [["+1", "+2", "+3"], ["-3"], ["+1"]])
+            # evaluate fault, evaluate fault followed by a stop fault, start fault (first / later combiner, after growth)
+            add("reduce", n, cl, ["fe 1 0 2"], [["+1", "+2", "+3"], ["+3"], ["+1"]])
+            add("reduce", n, cl, ["fe 2 %d 2" % (n - 1), "fx 1 0"], [["+1", "+2", "+3"], ["+1"], ["+2"]])
+            add("reduce", n, cl, ["fe 4 0 1", "fx 3 0"], [["+1", "+2", "+3"], ["+4", "+5"]])
+            for k in (1, n + 1, 2 * n + 1, 3 * n + 2):
+                add("reduce", n, cl, ["fs %d" % k], [["+1", "+2", "+3"], ["+4", "+5"]])
+            add("reduce", n, cl, ["fs %d" % (n + 1), "fx 1 0"], [["+1", "+2", "+3"]])
+            add("reduce", n, cl, [], [["+1", "+2", "+3"], ["+2"], ["+4", "+5"], ["-1"], ["-2", "-3"], ["+9"]])
     return out
 
 
@@ -244,6 +345,24 @@ def exhaustive(base):
                     for a in range(len(stops)):
                         for b in range(a + 1, len(stops)):
                             out.append(mk(i, "map", n, cl, [stops[a], stops[b]], hcycles)); i += 1
+    rhists = [
+        [["+1", "+2", "+3"]],
+        [["+1", "+2"], ["+3", "+4", "+5"], ["+1"]],
+        [["+1", "+2", "+3", "+4"], ["-2"], ["-1", "-3"], ["+5", "+6"]],
+        [["+1", "+2", "+3"], ["-1", "-2", "-3"], ["+4", "+5"]],
+    ]
+    for hcycles in rhists:
+        ncomb = 8
+        for n in (1, 2):
+            singles = ["fs %d" % k for k in range(1, ncomb * n + 1)]
+            singles += ["fe %d %d %d" % (o, p, m) for o in range(1, ncomb + 1) for p in range(n) for m in (1, 2)]
+            stops = ["fx %d %d" % (o, p) for o in range(1, ncomb + 1) for p in range(n)]
+            for cl in (True, False):
+                for f in singles + stops:
+                    out.append(mk(i, "reduce", n, cl, [f], hcycles)); i += 1
+                for f in singles[::3]:
+                    for g in stops[::2]:
+                        out.append(mk(i, "reduce", n, cl, [f, g], hcycles)); i += 1
     return out
 
 
@@ -367,8 +486,11 @@ def monitor(stream, case, out):
             order_stop.setdefault(child, []).append(int(idx))
             if tag == "px!" and ph == "stop":
                 stop_fault_in_final_stop = True
-        # events are in time order: the first failing hook before run() returned is the failure that is not swallowed
-        if tag in ("ps!", "pe!", "px!") and first_fail is None and ph != "rel":
+        # events are in time order: the first failing hook before run() returned is the failure that is not swallowed.
+        # (reduce_ stops the combiners it retires DURING a run through its noexcept retire / rollback paths: a stop fault
+        # there is swallowed by design; only the parent's own stop reports combiner stop errors.)
+        swallowed = p["kind"] == "reduce" and tag == "px!" and ph not in ("stop", "rel")
+        if tag in ("ps!", "pe!", "px!") and first_fail is None and ph != "rel" and not swallowed:
             first_fail = (ph, {"ps!": "start", "pe!": "evaluate", "px!": "stop"}[tag], node)
         # observer pairing: every `before` is closed by an `after` (or, for a start, by `failed`)
         if tag in ("s<", "x<", "G<", "H<"):
@@ -453,6 +575,22 @@ def features(stream, case, out):
         f.append("dyn:re-created-key")
     if any(ph == "rel" for (ph, _, _) in p["seq"]):
         f.append("dyn:stops-at-release")
+    if p["kind"] == "reduce":
+        ords = [int(t[2:].split("#")[0]) for t in toks if t.startswith("G<")]
+        f.append("dyn:reduce-combiners=%s" % ("0" if not ords else "1-2" if max(ords) <= 2 else "3-6" if max(ords) <= 6 else "7+"))
+        fired = [(ph, t[:3]) for (ph, t, _) in p["seq"] if t[:3] in ("ps!", "pe!", "px!")]
+        if fired and all(ph == "stop" and tg == "px!" for ph, tg in fired):
+            f.append("dyn:reduce-stop-fault-is-the-only-fault")
+        if any(ph not in ("stop", "rel") and tg == "px!" for ph, tg in fired):
+            f.append("dyn:reduce-retired-combiner-stop-fault-swallowed")
+        # a cycle (after the first) that creates >= 3 combiners while stopping old ones: a capacity-growth rebuild
+        for k in range(1, p["ncyc"]):
+            cyc = [t for (ph, t, _) in p["seq"] if ph == k]
+            if sum(1 for t in cyc if t.startswith("G<")) >= 3 and any(t.startswith("H<") for t in cyc):
+                f.append("dyn:reduce-growth-rebuild")
+                if any(ph == "stop" and t.startswith("px!") for (ph, t, _) in p["seq"]):
+                    f.append("dyn:reduce-stop-fault-after-growth")
+                break
     if any(t.startswith("G!") for t in toks):
         f.append("dyn:child-start-failed")
         # started siblings alive when a child start failed
